@@ -462,7 +462,9 @@ pub fn run_generated(
                     failure_persistence: None,
                     rng_seed: RngSeed::Fixed(seed),
                     rng_algorithm: RngAlgorithm::ChaCha,
-                    max_shrink_iters: ctx.tier.pick(3000, 20000),
+                    // C09's failures depend on the schedule and each evaluation
+                    // runs many thread pools: shrinking is capped there
+                    max_shrink_iters: if ctx.prop == "C09" { 40 } else { ctx.tier.pick(3000, 20000) },
                     max_local_rejects: u32::MAX,
                     max_global_rejects: u32::MAX,
                     verbose: 0,
